@@ -16,28 +16,28 @@ Definition s_w : name := [119].  Definition s_w1 : name := [119; 95; 49].
 Definition s_x : name := [120].  Definition s_x1 : name := [120; 95; 49].
 Definition s_y : name := [121].
 
-(* (1) the pass raises: inputs [w], initializers [w ; w_1] *)
+(* (1) inputs [w], initializers [w ; w_1] *)
 Definition wit_total_graph := Graph 0 false [0] [] [].
 Definition wit_total_vn := of_alist None [(0, Some s_w); (1, Some s_w); (2, Some s_w1)].
 Definition wit_total_inits : list (N * idict) := [(0, [(s_w, 1); (s_w1, 2)])].
 
-Lemma fix_total_refuted :
-  snd (name_fix_pass wit_total_graph [] wit_total_vn (fun _ => None) wit_total_inits) = Some ValueError.
-Proof. vm_compute. reflexivity. Qed.
+(* before fix 25cf9b5 this run ended with ValueError (C15_fix_total_refuted); now: input w kept, the
+   duplicated initializer becomes w_2 (w_1 is reserved), w_1 keeps its name *)
+Lemma wit_total_now_ok :
+  let r := name_fix_pass wit_total_graph [] wit_total_vn (fun _ => None) wit_total_inits in
+  snd r = None /\ map (f_vn (fst r)) [0; 1; 2] = [Some s_w; Some [119; 95; 50]; Some s_w1] /\
+  f_inits (fst r) = [(0, [(s_w1, 2); ([119; 95; 50], 1)])].
+Proof. vm_compute. auto. Qed.
 
-(* (2) an already-unique name is not kept: inputs x, x, x_1 -> x, x_1, x_1_1 *)
+(* (2) inputs x, x, x_1 *)
 Definition wit_keep_graph := Graph 0 false [0; 1; 2] [] [].
 Definition wit_keep_vn := of_alist None [(0, Some s_x); (1, Some s_x); (2, Some s_x1)].
 
-Lemma fix_keeps_unique_refuted :
+(* before fix 25cf9b5: x, x, x_1 -> x, x_1, x_1_1 (C15_fix_keeps_unique_refuted); now the unique x_1 is kept *)
+Lemma wit_keep_now_ok :
   let r := name_fix_pass wit_keep_graph [] wit_keep_vn (fun _ => None) [] in
-  snd r = None /\
-  wit_keep_vn 2 = Some s_x1 /\ (forall u, In u [0; 1] -> wit_keep_vn u <> Some s_x1) /\
-  f_vn (fst r) 2 <> Some s_x1.
-Proof.
-  vm_compute. repeat split; try discriminate.
-  intros u [<-|[<-|[]]]; discriminate.
-Qed.
+  snd r = None /\ map (f_vn (fst r)) [0; 1; 2] = [Some s_x; Some [120; 95; 50]; Some s_x1].
+Proof. vm_compute. auto. Qed.
 
 (* (3) unsorted outer-scope capture: two outputs of nodes of the main graph keep the same name *)
 Definition wit_unsorted_graph :=
